@@ -34,6 +34,8 @@ theorem lemma_div_bounds (x q r p lo hi : ℤ)
 
 theorem lemma_mul_eq (a b p : ℤ) (h : a = b) : a * p = b * p := by rw [h]
 
+theorem lemma_mul_eq2 (a b c d : ℤ) (h : a = b ∧ c = d) : a * c = b * d := by rw [h.1, h.2]
+
 theorem lemma_odd_mul (a b : ℤ) (h : a % 2 = 1 ∧ b % 2 = 1) : (a * b) % 2 = 1 := by
   obtain ⟨ha, hb⟩ := h
   rw [Int.mul_emod, ha, hb]; norm_num
